@@ -1063,6 +1063,25 @@ mod store {
         let mut alt: BTreeMap<String, Option<String>> = BTreeMap::new();
         let hist = ops.join("; ");
         let (mut had_merge, mut had_reopen, mut had_fault) = (false, false, false);
+        // an operation that never returns (e.g. a get spinning on an empty reader pool): a watchdog reports it with the history
+        let progress = std::sync::Arc::new(std::sync::atomic::AtomicU64::new(0));
+        let done = std::sync::Arc::new(std::sync::atomic::AtomicBool::new(false));
+        {
+            let (pg, dn, h3, lbl) = (progress.clone(), done.clone(), hist.clone(), label.to_string());
+            std::thread::spawn(move || {
+                let mut last = (u64::MAX, std::time::Instant::now());
+                loop {
+                    std::thread::sleep(std::time::Duration::from_millis(500));
+                    if dn.load(std::sync::atomic::Ordering::SeqCst) { return; }
+                    let cur = pg.load(std::sync::atomic::Ordering::SeqCst);
+                    if cur != last.0 { last = (cur, std::time::Instant::now()); }
+                    else if last.1.elapsed() > std::time::Duration::from_secs(30) {
+                        println!("{{\"found\": true, \"kind\": \"{}\", \"props\": \"C01,C04,C20\", \"history\": {}, \"observed\": {}, \"expected\": \"every operation returns\"}}", lbl, crate::js(&h3), crate::js(&format!("operation number {} has not returned for 30 s (the process is still running: a loop that makes no progress)", cur)));
+                        std::process::exit(0);
+                    }
+                }
+            });
+        }
         // stray files put into the directory by the history (C14: the store must never adopt, extend or truncate a file it did not create)
         let mut strays: Vec<String> = Vec::new();
         // a panic inside a store operation: reported with the history that led to it
@@ -1089,6 +1108,7 @@ mod store {
             if crate::want("C14") { for sname in strays.iter() { if let Ok(md) = std::fs::metadata(dir.path().join(sname)) { if md.len() != 0 {
                 report(label, "C14", &hist, format!("before op {}: the stray file {} (created empty by the history, not by the store) now holds {} bytes; files {:?}", i, sname, md.len(), files(dir.path())), "untouched: the store creates its files exclusively and fails when the name exists"); } } } }
             *cur_op.lock().unwrap() = format!("op {} `{}`", i, op);
+            progress.store(i as u64 + 1, std::sync::atomic::Ordering::SeqCst);
             // which properties a wrong read contradicts at this point of the history
             let rp = format!("C01{}{}{}", if had_reopen { ",C02" } else { "" }, if had_merge { ",C05,C12" } else { "" }, if had_fault { ",C20" } else { "" });
             let rp = rp.as_str();
@@ -1193,6 +1213,7 @@ mod store {
                 _ => panic!("bad op {}", op),
             }
         }
+        done.store(true, std::sync::atomic::Ordering::SeqCst);
     }
 
     /// bounded search: curated and pseudo-random histories against the map model (merges select every file, so the
@@ -1349,10 +1370,23 @@ mod store {
             while std::time::Instant::now() < deadline { let mut a = ids(dir.path()); let mut b0 = before.clone(); a.sort(); b0.sort(); if a != b0 { merged = true; break; } std::thread::sleep(std::time::Duration::from_millis(10)); }
             if !merged { report("background", "C18", "policy always, dead bytes above the trigger; the first merge passes fail because the id of their output is occupied by a stray file; the stray files are removed; no client action afterwards", "no merge ran within 9 s after the obstacle was removed (the background task has ended)".to_string(), "a merge at the next wake-up"); }
         }
+        // (e) the window policy: a window that contains the current local hour merges like `always` -- also when that hour is its first or
+        //     its last one -- and a window that excludes it never merges.  (Skipped in the last 20 s of an hour.)
+        {
+            let now = || -> (u32, u32, u32) { let o = std::process::Command::new("date").arg("+%H %M %S").output().unwrap(); let t = String::from_utf8_lossy(&o.stdout).to_string(); let v: Vec<u32> = t.split_whitespace().map(|x| x.parse().unwrap()).collect(); (v[0], v[1], v[2]) };
+            let (hh, mm, ss) = now();
+            if !(mm == 59 && ss >= 40) {
+                run(&format!("window {0}..{0} (only the current hour)", hh), MergePolicy::Window { start: hh, end: hh }, 10, 1.0, true);
+                run(&format!("window 0..{} (the current hour is the last one)", hh), MergePolicy::Window { start: 0, end: hh }, 10, 1.0, true);
+                run(&format!("window {}..23 (the current hour is the first one)", hh), MergePolicy::Window { start: hh, end: 23 }, 10, 1.0, true);
+                let other = (hh + 12) % 24;
+                run(&format!("window {0}..{0} (excludes the current hour {1})", other, hh), MergePolicy::Window { start: other, end: other }, 10, 1.0, false);
+            }
+        }
         run("policy never, triggers exceeded", MergePolicy::Never, 0, 0.0, false);
         run("policy always, no trigger exceeded", MergePolicy::Always, u64::MAX, 1.0, false);
         run("policy always, dead bytes above the trigger", MergePolicy::Always, 10, 1.0, true);
-        println!("{{\"found\": false, \"evaluations\": 4, \"searched\": \"4 configurations of the background merge (never / always without trigger / always with trigger / always with a merge pass that fails first) on the real store with a 25 ms check interval; a merge is observed as a change of the set of data files\"}}");
+        println!("{{\"found\": false, \"evaluations\": 8, \"searched\": \"8 configurations of the background merge (never / always without trigger / always with trigger / always with a merge pass that fails first / four windows around the current hour) on the real store with a 25 ms check interval; a merge is observed as a change of the set of data files\"}}");
     }
     /// C18 (sync half; run under strace by tools/syncsearch.py): open the store with interval sync, keep writing for `dur` ms, exit
     pub fn sync_run(policy: &str, interval_ms: u64, dur_ms: u64) {
